@@ -162,12 +162,12 @@ theorem checkFuncArguments_congr (h : Agree v v' a) (htr : Γ.traits = Γ'.trait
   unfold checkFuncArguments
   simp only [hf, checkArgsGo_congr h htr]
 
-theorem recursionRounds_congr (h : Agree v v' a) (idx : Nat) : ∀ (n : Nat) (it : Ty),
-    recursionRounds v a idx n it = recursionRounds v' a idx n it
+theorem recursionRounds_congr (te : TraitEnv) (h : Agree v v' a) (idx : Nat) : ∀ (n : Nat) (it : Ty),
+    recursionRounds te v a idx n it = recursionRounds te v' a idx n it
   | 0, _ => rfl
   | n+1, it => by
     simp only [recursionRounds, visitChildDecl_congr h, childType_congr h,
-      recursionRounds_congr h idx n]
+      recursionRounds_congr te h idx n]
 
 theorem deboolAll_congr (h : Agree v v' a) (eid : Nat) : ∀ (n i : Nat),
     deboolAll v a eid n i = deboolAll v' a eid n i
@@ -298,7 +298,7 @@ theorem viRecursion_congr (h : Agree v v' a) (htr : Γ.traits = Γ'.traits) :
     viRecursion Γ v a = viRecursion Γ' v' a := by
   unfold viRecursion
   simp only [childType_congr h, visitChildDecl_congr h, visitChild_congr h,
-    recursionRounds_congr h, htr]
+    recursionRounds_congr _ h, htr]
 
 theorem viDecart_congr (h : Agree v v' a) : viDecart v a = viDecart v' a := by
   unfold viDecart; simp only [deboolAll_congr h]
